@@ -35,7 +35,7 @@ func init() {
 			"streams ending in EOF, in an ERR packet or by a lost connection, before/inside/after the first chunk; " +
 			"dc = DirectConnection.Execute + FetchMoreRows chunks, un = SessionExecutor.ExecuteSQL + Session.writeResponse (text and binary) read back at the client, sh = ExecuteSQLs over 1–4 slices; " +
 			"ses = whole sessions through the real Session.Run (COM_QUERY / COM_STMT_PREPARE+EXECUTE from an in-memory client): 1–6 statements out of begin / commit / rollback / unsharded SELECT with an answer of 1–3 results (result sets, OK packets, ERR) / sharded SELECT over 1–4 sub-tables on two slices entering above the planner, " +
-			"with keep-session, max_sql_execute_time armed, a client whose connection breaks after k packets, a backend that falls silent (150 ms deadline), and results of 2–3 reader chunks inside transactions, keep-session, multi-result answers and sharded statements; " +
+			"multi-statement packets of 2–4 statements split by the proxy (every fifth session), with keep-session, max_sql_execute_time armed, a client whose connection breaks after k packets, a backend that falls silent (150 ms deadline), and results of 2–3 reader chunks inside transactions, keep-session, multi-result answers and sharded statements; " +
 			"non-trivial = some row was delivered",
 		Generate: genC39,
 		Exec:     execC39,
@@ -288,7 +288,7 @@ func (b *c39Backend) Write(p []byte) (int, error) {
 		if l > 0 {
 			switch payload[0] {
 			case mysql.ComQuery:
-				q := string(payload[1:])
+				q := strings.TrimSpace(string(payload[1:]))
 				if b.next != nil {
 					if n := b.unreadLocked(); n > b.desync {
 						b.desync = n
